@@ -5,6 +5,7 @@ import (
 	"go/token"
 	"go/types"
 	"sort"
+	"strings"
 
 	"golang.org/x/tools/go/ssa"
 )
@@ -359,16 +360,7 @@ func ruleInitBody(r *Run) {
 		var out []*ssa.Return
 		ei := errorResultIndex(f.Signature)
 		for _, ret := range returnsOf(f) {
-			if ei < 0 || isNilConst(retResult(ret, ei)) {
-				out = append(out, ret)
-			} else if _, isConst := retResult(ret, ei).(*ssa.Const); !isConst {
-				// a non-constant error value may be nil only if it is a checked callee result; conservatively
-				// treat `return err` as possibly nil
-				if _, isCall := retResult(ret, ei).(*ssa.Call); !isCall {
-					if _, isExtract := retResult(ret, ei).(*ssa.Extract); !isExtract {
-						continue
-					}
-				}
+			if ei < 0 || possiblyNilError(p, retResult(ret, ei), ret.Block()) {
 				out = append(out, ret)
 			}
 		}
@@ -389,6 +381,14 @@ func ruleInitBody(r *Run) {
 					cut[c.Block()] = true
 				}
 			})
+			// a path that has passed `d.Body != nil` is as good as one that stored it
+			for _, t := range fieldNilTestsAny(f) {
+				if fieldIs(p, t.Field, pkgDoc, "Document", "Body") {
+					for b := range t.NonNil {
+						cut[b] = true
+					}
+				}
+			}
 			reach := reachableBlocks(f.Blocks[0], cut)
 			ok := len(cut) > 0
 			for _, ret := range nilErrReturns(f) {
@@ -518,4 +518,151 @@ func ruleRunContainer(r *Run) {
 		r.Check("run-container", name, pfn.Pos(), descends,
 			fmt.Sprintf("<w:%s> may contain runs inside a paragraph; %s has no case that descends into it, so the element is skipped and the text of the runs inside is lost on open+save", name, shortName(pfn)))
 	}
+}
+
+// neverNilError: module functions whose error result is never nil (error constructors).
+var neverNilCache = map[*ssa.Function]int{} // 0 unknown, 1 yes, 2 no, 3 in progress
+
+func neverNilError(p *Program, f *ssa.Function) bool {
+	if f == nil {
+		return false
+	}
+	switch fullName(f) {
+	case "fmt.Errorf", "errors.New":
+		return true
+	}
+	if !p.inModule(f) {
+		return false
+	}
+	switch neverNilCache[f] {
+	case 1:
+		return true
+	case 2, 3:
+		return false
+	}
+	neverNilCache[f] = 3
+	ei := errorResultIndex(f.Signature)
+	ok := ei >= 0 && len(f.Blocks) > 0
+	if ok {
+		for _, ret := range returnsOf(f) {
+			if possiblyNilError(p, retResult(ret, ei), ret.Block()) {
+				ok = false
+			}
+		}
+	}
+	if ok {
+		neverNilCache[f] = 1
+	} else {
+		neverNilCache[f] = 2
+	}
+	return ok
+}
+
+// possiblyNilError: may the error value v be nil when control is in block b?
+func possiblyNilError(p *Program, v ssa.Value, b *ssa.BasicBlock) bool {
+	switch x := v.(type) {
+	case *ssa.Const:
+		return x.Value == nil
+	case *ssa.MakeInterface:
+		return false
+	case *ssa.Call:
+		if neverNilError(p, staticCallee(x)) {
+			return false
+		}
+		// nil-preserving wrapper: nil iff its k-th argument is nil
+		if k := nilIffParam(p, staticCallee(x)); k >= 0 && k < len(x.Call.Args) {
+			return possiblyNilError(p, x.Call.Args[k], b)
+		}
+	case *ssa.UnOp:
+		// package-level error values (errors.New at init, never reassigned: see global-state)
+		if g, ok := x.X.(*ssa.Global); ok && x.Op == token.MUL && isErrorType(x.Type()) && strings.HasPrefix(g.Name(), "Err") {
+			return false
+		}
+	case *ssa.Phi:
+		for _, e := range x.Edges {
+			if possiblyNilError(p, e, b) {
+				return true
+			}
+		}
+		return false
+	}
+	// inside the true branch of `v != nil`?
+	if refs := v.Referrers(); refs != nil {
+		for _, in := range *refs {
+			bo, ok := in.(*ssa.BinOp)
+			if !ok || (bo.Op != token.NEQ && bo.Op != token.EQL) || (!isNilConst(bo.X) && !isNilConst(bo.Y)) {
+				continue
+			}
+			if br := bo.Referrers(); br != nil {
+				for _, u := range *br {
+					if iff, ok := u.(*ssa.If); ok {
+						nn := iff.Block().Succs[0]
+						if bo.Op == token.EQL {
+							nn = iff.Block().Succs[1]
+						}
+						if edgeRegion(iff.Block(), nn)[b] {
+							return false
+						}
+					}
+				}
+			}
+		}
+	}
+	return true
+}
+
+// nilIffParam: f returns a nil error exactly on the paths where its error parameter k is nil.
+func nilIffParam(p *Program, f *ssa.Function) int {
+	if f == nil || !p.inModule(f) || len(f.Blocks) == 0 {
+		return -1
+	}
+	ei := errorResultIndex(f.Signature)
+	if ei < 0 {
+		return -1
+	}
+	for k, par := range f.Params {
+		if !isErrorType(par.Type()) {
+			continue
+		}
+		// nil region of `par == nil`
+		nilRegion := map[*ssa.BasicBlock]bool{}
+		if refs := par.Referrers(); refs != nil {
+			for _, in := range *refs {
+				bo, ok := in.(*ssa.BinOp)
+				if !ok || (bo.Op != token.NEQ && bo.Op != token.EQL) || (!isNilConst(bo.X) && !isNilConst(bo.Y)) {
+					continue
+				}
+				if br := bo.Referrers(); br != nil {
+					for _, u := range *br {
+						if iff, ok := u.(*ssa.If); ok {
+							nb := iff.Block().Succs[0]
+							if bo.Op == token.NEQ {
+								nb = iff.Block().Succs[1]
+							}
+							for b := range edgeRegion(iff.Block(), nb) {
+								nilRegion[b] = true
+							}
+						}
+					}
+				}
+			}
+		}
+		if len(nilRegion) == 0 {
+			continue
+		}
+		ok := true
+		for _, ret := range returnsOf(f) {
+			v := retResult(ret, ei)
+			if nilRegion[ret.Block()] {
+				continue
+			}
+			if possiblyNilError(p, v, ret.Block()) {
+				ok = false
+			}
+		}
+		if ok {
+			return k
+		}
+	}
+	return -1
 }
